@@ -88,6 +88,11 @@ struct Plan {
     /// how long EPMD takes to answer the port lookup (not a peer behaviour; the handshake starts afterwards)
     #[serde(default)]
     epmd_delay_ms: u64,
+    /// how the configuration is put together: 0 new().with_flags(f), 1 new_hidden().with_flags(f),
+    /// 2 new_hidden() as it is (local_flags holds its default), 3 new() as it is, 4 with_flags twice (last
+    /// wins), 5 the setters in another order
+    #[serde(default)]
+    ctor: u32,
     #[serde(default)]
     salt: u64,
 }
@@ -99,6 +104,17 @@ fn gen_cookie(r: &mut Rng) -> String {
         0 => String::new(),
         1 => "x".repeat(r.range(500, 4096) as usize),
         2 => "sécrèt-クッキー-🍪".to_string(),
+        5 => {
+            // a few ASCII letters, then multi-byte characters: any small byte offset may fall inside one
+            let mut s: String = (0..r.below(6)).map(|_| (b'a' + r.below(26) as u8) as char).collect();
+            for _ in 0..r.range(1, 6) {
+                s.push(*r.pick(&['é', '€', '😀', 'ß', '日']));
+                if r.chance(1, 3) {
+                    s.push('x');
+                }
+            }
+            s
+        }
         3 => "0".to_string(),
         4 => {
             // text that a tidy-minded reader of cookie files would trim or fold
@@ -388,12 +404,19 @@ impl Scenario for C04 {
             }
             attempts.push(a);
         }
+        let ctor = if api { 0 } else { *r.pick(&[0u32, 0, 0, 1, 1, 2, 3, 4, 5]) };
+        let local_flags = match ctor {
+            2 => DistributionFlags::default_hidden().as_u64(),
+            3 => DistributionFlags::default().as_u64(),
+            _ => gen_flags(r),
+        };
         let p = Plan {
             kind: if api { "api" } else { "connect" }.to_string(),
+            ctor,
             cookie: gen_cookie(r),
             local_name: gen_name(r),
             creation: r.next_u32(),
-            local_flags: gen_flags(r),
+            local_flags,
             timeout_ms,
             client,
             server,
@@ -437,7 +460,7 @@ impl Scenario for C04 {
             components_stubbed: &["TCP (SimNet)", "EPMD daemon (conforming stub)", "remote node (scripted handshake peer, independent MD5 formula and layouts)", "challenge source (seeded through hook H4)"],
             assumptions: &["EPMD itself conforms; it may answer late (the property is about the peer, so the time bound is counted from EPMD's answer)", "worst-case injected network delay per frame is kept below half the configured timeout, so a conforming peer is never legitimately timed out"],
             fault_prefixes: &["fault.", "net."],
-            expected_probes: &["probe.c04.connected", "probe.c04.refused_status", "probe.c04.bad_ack_rejected", "probe.c04.stale_ack_rejected", "probe.c04.timeout_on_silence", "probe.c04.reuse_after_close_connected", "probe.c04.delay_just_below_timeout_ok", "probe.c04.delay_above_timeout_err", "probe.c04.api_connected", "probe.c04.timeout_on_dripped_frame", "probe.c04.connected_after_slow_epmd"],
+            expected_probes: &["probe.c04.connected", "probe.c04.refused_status", "probe.c04.bad_ack_rejected", "probe.c04.stale_ack_rejected", "probe.c04.timeout_on_silence", "probe.c04.reuse_after_close_connected", "probe.c04.delay_just_below_timeout_ok", "probe.c04.delay_above_timeout_err", "probe.c04.api_connected", "probe.c04.timeout_on_dripped_frame", "probe.c04.connected_after_slow_epmd", "probe.c04.configuration_built_another_way"],
         }
     }
 }
@@ -715,10 +738,18 @@ async fn connect_history(w: &Arc<World>, p: &Plan) {
         },
     );
 
-    let cfg = ConnectionConfig::new(p.local_name.clone(), "peer@peerhost", p.cookie.clone())
-        .with_flags(DistributionFlags::new(p.local_flags))
-        .with_creation(p.creation)
-        .with_timeout(Duration::from_millis(p.timeout_ms));
+    let (f, cr, t) = (DistributionFlags::new(p.local_flags), p.creation, Duration::from_millis(p.timeout_ms));
+    let cfg = match p.ctor {
+        1 => ConnectionConfig::new_hidden(p.local_name.clone(), "peer@peerhost", p.cookie.clone()).with_flags(f).with_creation(cr).with_timeout(t),
+        2 if p.local_flags == DistributionFlags::default_hidden().as_u64() => ConnectionConfig::new_hidden(p.local_name.clone(), "peer@peerhost", p.cookie.clone()).with_creation(cr).with_timeout(t),
+        3 if p.local_flags == DistributionFlags::default().as_u64() => ConnectionConfig::new(p.local_name.clone(), "peer@peerhost", p.cookie.clone()).with_creation(cr).with_timeout(t),
+        4 => ConnectionConfig::new(p.local_name.clone(), "peer@peerhost", p.cookie.clone()).with_flags(DistributionFlags::new(!p.local_flags)).with_flags(f).with_creation(cr).with_timeout(t),
+        5 => ConnectionConfig::new_hidden(p.local_name.clone(), "peer@peerhost", p.cookie.clone()).with_timeout(t).with_creation(cr).with_epmd_host("localhost").with_flags(f),
+        _ => ConnectionConfig::new(p.local_name.clone(), "peer@peerhost", p.cookie.clone()).with_flags(f).with_creation(cr).with_timeout(t),
+    };
+    if p.ctor != 0 {
+        w.stat("probe.c04.configuration_built_another_way");
+    }
     let mut conn = Connection::new(cfg);
     let name_ok = p.local_name.len() <= 255;
     let worst = worst_disturbance_ms(&p.client, &p.server, p.cap);
